@@ -579,6 +579,7 @@ class Interp(object):
     def x_While(self, st, fr):
         spec, label = self.loop_spec(st, fr)
         if spec is not None:
+            spec.enter(self, fr)
             self._check_inv(spec, fr, None, label + ':invariant-holds-on-entry')
             spec.havoc(self, fr, None)
             self._assume_inv(spec, fr, None)
@@ -612,6 +613,7 @@ class Interp(object):
         if spec is not None:
             seq = self.eval(st.iter, fr)
             n = _h_len(self, seq)
+            spec.enter(self, fr)
             self._check_inv(spec, fr, 0, label + ':invariant-holds-on-entry')
             k = self.path.fresh_int('k')
             self.path.assume(z3.And(k.e >= 0, k.e <= sym._as_int_expr(n)))
@@ -1215,12 +1217,17 @@ class Interp(object):
         return out
 
     def e_DictComp(self, node, fr):
+        src0 = self.eval(node.generators[0].iter, fr)
+        if isinstance(src0, SymList):
+            # a dictionary built from a list of symbolic length: havocked (any membership / any value), recorded
+            self.path.note("havoc: dict comprehension over a symbolic list (%s line %d)" % (fr.qual, node.lineno))
+            return OpaqueDict(self.path)
         out = {}
 
         def add(f):
             k = self.eval(node.key, f)
             out[k] = self.eval(node.value, f)
-        self.comp(node.generators, 0, fr, add)
+        self.comp(node.generators, 0, fr, add, first=(src0,))
         return out
 
     def comp(self, gens, i, fr, emit, first=None):
@@ -1383,6 +1390,22 @@ class AbstractSeq(object):
 
     def __len__(self):
         raise Unsupported("native len() of abstract sequence")
+
+
+class OpaqueDict(object):
+    """an unknown dictionary (sound over-approximation): membership and values are unconstrained"""
+
+    def __init__(self, path):
+        self.path = path
+
+    def _pyvc_contains(self, item):
+        return self.path.fresh_bool('indict')
+
+    def __getitem__(self, k):
+        return self.path.fresh_val('dictval')
+
+    def get(self, k, d=None):
+        return self.path.fresh_val('dictval')
 
 
 class SymSlice(object):
